@@ -2,6 +2,11 @@ package node
 
 import (
 	"fmt"
+
+	sdk "github.com/cosmos/cosmos-sdk/types"
+	"github.com/cosmos/cosmos-sdk/types/query"
+
+	packettypes "github.com/teleport-network/teleport/x/xibc/core/packet/types"
 )
 
 // PacketReadback lists, through the packet keeper's own iteration (the one genesis export and the
@@ -49,4 +54,50 @@ func SeqClass(seq uint64) string {
 	default:
 		return "seq_small"
 	}
+}
+
+// PacketReadbackByPath reads the commitments and acknowledgement hashes of one (source, destination) path
+// through the keeper's by-path iteration and through the two gRPC list queries. ok=false: the gRPC
+// service refuses the names (nothing can be said).
+func (c *Chain) PacketReadbackByPath(src, dst string) (keeperC, grpcC, grpcA map[string]bool, ok bool, panicMsg string) {
+	defer func() {
+		if r := recover(); r != nil {
+			panicMsg = fmt.Sprint(r)
+		}
+	}()
+	ctx := c.ReadCtx()
+	k := c.App.XIBCKeeper.PacketKeeper
+	keeperC, grpcC, grpcA = map[string]bool{}, map[string]bool{}, map[string]bool{}
+	for _, s := range k.GetAllPacketCommitmentsByPath(ctx, src, dst) {
+		keeperC[fmt.Sprintf("%s/%s/%d=%x", s.SrcChain, s.DstChain, s.Sequence, s.Data)] = true
+	}
+	rc, err := k.PacketCommitments(sdk.WrapSDKContext(ctx), &packettypes.QueryPacketCommitmentsRequest{SrcChain: src, DstChain: dst, Pagination: &query.PageRequest{Limit: 100000}})
+	if err != nil {
+		return keeperC, nil, nil, false, ""
+	}
+	for _, s := range rc.Commitments {
+		grpcC[fmt.Sprintf("%s/%s/%d=%x", s.SrcChain, s.DstChain, s.Sequence, s.Data)] = true
+	}
+	ra, err := k.PacketAcknowledgements(sdk.WrapSDKContext(ctx), &packettypes.QueryPacketAcknowledgementsRequest{SrcChain: src, DstChain: dst, Pagination: &query.PageRequest{Limit: 100000}})
+	if err != nil {
+		return keeperC, grpcC, nil, false, ""
+	}
+	for _, s := range ra.Acknowledgements {
+		grpcA[fmt.Sprintf("%s/%s/%d=%x", s.SrcChain, s.DstChain, s.Sequence, s.Data)] = true
+	}
+	return keeperC, grpcC, grpcA, true, ""
+}
+
+// PacketStatesAll lists every stored commitment and acknowledgement hash as "src/dst/seq=hash" (whole-store iteration).
+func (c *Chain) PacketStatesAll() (commitments, acks map[string]bool) {
+	ctx := c.ReadCtx()
+	k := c.App.XIBCKeeper.PacketKeeper
+	commitments, acks = map[string]bool{}, map[string]bool{}
+	for _, s := range k.GetAllPacketCommitments(ctx) {
+		commitments[fmt.Sprintf("%s/%s/%d=%x", s.SrcChain, s.DstChain, s.Sequence, s.Data)] = true
+	}
+	for _, s := range k.GetAllPacketAcks(ctx) {
+		acks[fmt.Sprintf("%s/%s/%d=%x", s.SrcChain, s.DstChain, s.Sequence, s.Data)] = true
+	}
+	return
 }
